@@ -538,6 +538,11 @@ class PVLEncoder(object):
         if s in self.grammar.reserved_keywords:
             return True
 
+        if s.endswith("-"):
+            # At the end of a line a bare trailing dash would be taken
+            # for a line continuation by ISIS and by the default loader.
+            return True
+
         tok = Token(s, grammar=self.grammar, decoder=self.decoder)
         if not tok.is_unquoted_string():
             return True
